@@ -35,11 +35,10 @@ PARSER_TRUST = ['A4 the scanner is an arbitrary deterministic token source: Scan
 PROPS['C01'] = {
     'units': ['parser'],
     'level': 'proof',
-    'claim': 'Panic-freedom and termination as verifier-generated obligations on the real code: every unwrap/expect/unreachable!/assert_eq!/overflow site of parser.rs (pop_state, fetch_token, the four unreachable!() of parse_node, State::End arm, load_node unreachable!, load_document assert_eq!) is discharged from the state-stack invariant and the event grammar; the token loops of document_start and parser_process_directives carry decreases clauses. All token streams, no bound.',
+    'claim': 'Panic-freedom and termination as verifier-generated obligations on the real code: every unwrap/expect/unreachable!/assert_eq!/overflow site of parser.rs (pop_state, fetch_token, the four unreachable!() of parse_node, State::End arm, load_node unreachable!, load_document assert_eq!) is discharged from the state-stack invariant and the event grammar; the token loops of document_start and parser_process_directives carry decreases clauses; every delivered event strictly decreases the measure 4*|upcoming tokens| + rank(state, next token), which gives termination of load / load_node / load_sequence / load_mapping (loop and recursion decreases clauses). char_traits.rs, all 34 Input trait methods (provided ones against the abstract input contract), the StrInput char-iterator methods and the scanner position helpers are verified panic-free under their contracts. All token streams / all inputs, no bound.',
     'technique': 'Verus: safety obligations (unwrap, unreachable!, assert_eq!, arithmetic) discharged from contracts and invariants; decreases clauses for termination',
     'not_decided': [
         'linear work bound (no cost model in the verifier)',
-        'termination of the push-interface loops/recursion (load, load_node, load_sequence, load_mapping carry exec_allows_no_decreases_clause; partial correctness and panic-freedom are proved)',
         'scanner, Input implementations and loader functions not yet under contract are listed as external_body in the evidence; a panic inside them would not be seen',
     ],
     'trust': PARSER_TRUST,
@@ -86,6 +85,42 @@ PROPS['C11'] = {
     'technique': 'Verus: postconditions on the flow-level functions; recursion measure and depth precondition on load_node/load_sequence/load_mapping',
     'not_decided': ['bytes of machine stack per frame', 'recursion of derived Drop/Clone/Eq/Hash on the loaded tree and of the emitter (compiler-generated or outside the units)', 'the scanner invariant flow_level <= 255 follows from the u8 type'],
     'trust': PARSER_TRUST,
+}
+
+SCANNER_TRUST = ['input model: Input::rem()/avail()/buffered()/cap() are ghost methods of the trait; every implementation must define them and is verified (or, for the byte-indexed StrInput overrides and BufferedInput, assumed - see functions_not_under_contract) against the same clauses',
+                 'scanner functions not yet under contract are external_body: their callers learn nothing about them']
+
+PROPS['C04'] = {
+    'units': ['parser'],
+    'level': 'proof',
+    'claim': 'Tier 1 (escape decoding): Scanner::resolve_flow_scalar_escape_sequence is verified against yaml_escape / hex_value / is_scalar_value written from YAML 1.2 section 5.7: every named escape yields its code point and consumes exactly two characters; \\x \\u \\U need exactly 2/4/8 hex digits forming a Unicode scalar value and yield that code point; every other escape character and every truncated or non-scalar hex escape is an Err. char class predicates equal their spec classes. For all inputs, no bound.',
+    'technique': 'Verus: function-against-spec-function postcondition (yaml_escape table, hex_value recursion) with loop invariant over the hex digits',
+    'not_decided': ['tier 2/3: the non-blank run decoder (quote doubling, escaped break) and the folding loops of scan_flow_scalar / scan_plain_scalar are not under contract yet', 'next_can_be_plain_scalar: default implementation verified against sp_plain_ok; the StrInput override is byte-indexed (Kani tier)'],
+    'trust': SCANNER_TRUST,
+}
+PROPS['C10'] = {
+    'units': ['parser'],
+    'level': 'proof',
+    'claim': 'One abstract Input contract (remaining characters, peek entitlement, buffer count, capacity) is the single specification: all provided methods of the trait are verified against it from the required ones (including skip_ws_to_eol against ws_eol_spec and the counting loops against prefix-length spec functions, counts in characters); the StrInput char-iterator methods (lookahead, buflen, bufmaxlen, buf_is_empty, raw_read_ch, raw_read_non_breakz_ch, skip, skip_n, peek, peek_nth, look_ch, next_char_is, nth_char_is, next_2_are, next_3_are, skip_while_non_breakz, split_first_char) are verified against the same clauses. The scanner helpers under contract are verified against the abstract contract only, so they behave identically on every conforming back end.',
+    'technique': 'Verus: trait-level contract; default methods and StrInput overrides verified against the same postconditions',
+    'not_decided': ['byte-indexed StrInput overrides (next_is_document_*, next_can_be_plain_scalar, next_is_*, skip_ws_to_eol, skip_while_blank, fetch_while_is_alpha) are assumed to meet the contract in this unit (Kani differential tier)', 'BufferedInput methods are assumed to meet the contract (buffered tier)', 'the two-run theorem "same events, spans, error" is the conjunction of these per-method facts with the determinism of the scanner; it is not mechanised'],
+    'trust': SCANNER_TRUST,
+}
+PROPS['C12'] = {
+    'units': ['parser'],
+    'level': 'proof',
+    'claim': 'Positions are true positions, relationally: mark_after(pos, s) counts characters and line breaks (CR LF, lone CR, LF) from the property statement; adv_rel / Scanner::advanced_from says "since state o, whole characters/breaks were consumed and the mark is mark_after of them". Proved for skip_blank, skip_non_blank, skip_n_non_blank, skip_nl (under their non-break / break side conditions), skip_linebreak, skip_break, read_break, skip_ws_to_eol, skip_to_next_token, skip_yaml_whitespace (incl. the manual mark updates after bulk input operations) and resolve_flow_scalar_escape_sequence; composition by the transitivity lemma. Invariant pos_inv: (line-1)+col <= index and index + |remaining| constant, so the index stays within the input. Bulk counts are in characters.',
+    'technique': 'Verus: relational postcondition advanced_from (mark == mark_after(old mark, consumed prefix)) with transitivity lemma; invariant pos_inv',
+    'not_decided': ['scanner functions not yet under contract (directive/tag/anchor scanners, scalar scanners) - their manual mark updates are the next tier', 'span construction per token, ScanError Display, with_span on loaded nodes'],
+    'trust': SCANNER_TRUST,
+}
+PROPS['C14'] = {
+    'units': ['parser'],
+    'level': 'proof',
+    'claim': 'Break handling is break-kind agnostic: break_len(rem) in {0,1,2}; skip_linebreak / skip_break / read_break are verified to consume exactly break_len characters and to leave index + break_len, line + 1, column 0 - the same line and column for LF, CR LF and lone CR - and read_break pushes exactly one LF; skip_break/read_break carry the precondition "at a break with two characters of lookahead" which every verified call site must establish (the historic fuzz crash is a failed precondition). is_break / is_breakz / is_blank_or_breakz equal their spec classes for every char.',
+    'technique': 'Verus: contracts stated over break_len; character-class postconditions',
+    'not_decided': ['the bisimulation between the run on s and on crlf(s) as a two-run theorem', 'call sites inside scanner functions not yet under contract'],
+    'trust': SCANNER_TRUST,
 }
 
 
